@@ -19,14 +19,15 @@ const (
 )
 
 type Item struct {
-	kind   int
-	block  int // block index; -1 = global
-	t      Term
-	name   string
-	clause string
-	props  []string
-	known  string
-	cover  bool
+	kind     int
+	block    int // block index; -1 = global
+	t        Term
+	name     string
+	clause   string
+	props    []string
+	known    string
+	cover    bool
+	coverAll bool // exit cover: keeps the assumptions of every block
 }
 
 type loopInfo struct {
@@ -610,6 +611,12 @@ func newFnCtx(P *Prog, fn *ssa.Function, fc *FuncContract) *FnCtx {
 func (fx *FnCtx) generate() {
 	fn := fx.fn
 	P := fx.P
+	top := fn
+	for top.Parent() != nil {
+		top = top.Parent()
+	}
+	P.curTop = top
+	defer func() { P.curTop = nil }()
 	if len(fn.Blocks) == 0 {
 		fx.errf("function %s has no body", fx.key)
 		return
@@ -663,6 +670,17 @@ func (fx *FnCtx) generate() {
 					dfc, _, _ := fx.calleeContract(&d.Call)
 					if dfc == nil || dfc.ModAll || len(dfc.Modifies) > 0 {
 						fx.errf("outside subset: defer outside entry block with a callee that has effects (or no contract) in %s", fx.key)
+					} else {
+						// skipping the call also skips its obligations: only allowed when there are none
+						obl := len(dfc.Requires) > 0
+						for _, cs := range fx.fc.Calls {
+							if cs.Callee == dfc.Key {
+								obl = true
+							}
+						}
+						if obl {
+							fx.errf("outside subset: conditionally deferred call of %s in %s carries obligations (requires / call clause) that cannot be checked at function exit", dfc.Key, fx.key)
+						}
 					}
 					fx.notes["deferred call "+d.Call.String()+" registered conditionally: treated as effect-free at function exit (its contract has no modifies)"] = true
 					continue
@@ -798,6 +816,20 @@ func (fx *FnCtx) generate() {
 			fx.curBlock = nil
 			fx.obligNamed(fx.key+"#frame", tTrue, "all heap components written are listed in modifies (syntactic)", nil, "")
 		}
+	}
+	// exit cover: with every assumption made along the way (callee postconditions, pure-function axioms,
+	// invariants, no-overflow assumptions) some return must remain reachable; otherwise every obligation
+	// downstream of the contradiction would be discharged vacuously
+	if len(fx.retStates) > 0 {
+		var rs []Term
+		seen := map[*ssa.BasicBlock]bool{}
+		for _, r := range fx.retStates {
+			if !seen[r.b] {
+				seen[r.b] = true
+				rs = append(rs, fx.reach[r.b])
+			}
+		}
+		fx.items = append(fx.items, Item{kind: itOblig, block: -1, t: not(or(rs...)), name: "cover.exit:" + fx.key, clause: "some return is reachable under all assumptions made in the body", cover: true, coverAll: true, props: fx.fc.Props})
 	}
 }
 
